@@ -458,7 +458,9 @@ def _judge(plan, jp, job, K, mon, result, fstate, end, want_log, ref, ginfo):
         td = mon.teardown.get(host, mon.teardown.get("ctrl"))
         helper_crashes.append((name, err[:200], td is not None))
     early_crashes = [c for c in helper_crashes if not c[2] and c[0] != "ctrl"]
-    if not faulted and not lossy and ginfo is None and verdict in ("hang", "raised") and job.ext_outputs:
+    fair_loss = lossy and net.get("max_consec") is not None and net["max_consec"] <= 6 and net["lat_hi"] <= 50_000_000
+    if not faulted and (not lossy or fair_loss) and ginfo is None and verdict in ("hang", "raised") and job.ext_outputs:
+        # (fair loss: every logical message loses fewer frames than the retry budget - the acknowledged layer has to absorb that)
         viol.append(("C01", "requested_outputs_not_delivered", dict(verdict=verdict, error=result.get("error"), tf=mon.task_failures[:2],
                                                                     ef=mon.executor_failures[:2]), sig_base))
     if ginfo is not None and ginfo["expect_failure"]:
